@@ -19,7 +19,6 @@ import (
 	"sort"
 	"strings"
 
-	api "k8s.io/api/core/v1"
 	networking "k8s.io/api/networking/v1"
 	"k8s.io/apimachinery/pkg/util/intstr"
 	"sigs.k8s.io/controller-runtime/pkg/client"
@@ -318,7 +317,6 @@ func genHosts(rng *rand.Rand, i int) (string, interface{}, bool, error) {
 			}
 		}
 	}
-	_ = api.ProtocolTCP
 	return fmt.Sprintf("CHosts @ID@ %s %s %s", coqStrs([]string{"haproxy-ingress.github.io", "ingress.kubernetes.io"}), hx.List(ings), hx.List(obs)),
 		map[string]interface{}{"ingresses_in_api_order": jings, "observed_hosts": jobs}, shared, nil
 }
